@@ -336,7 +336,7 @@ func C18(c *Ctx) {
 
 	const r2 = "K1.conflict-checks-before-writes"
 	c.Rule(r2, "prewriteMutation: the lock-mismatch return and the write-conflict return (commitTs >= StartVersion) lie on every path to the data and lock writes; rollbackKey: the existing-write test precedes the deletes and the rollback record; commitKey: the MinCommitTs test and the existing-write test precede the commit record; the commit record is written before the lock is removed")
-	wr := Named("NoKV.(*DB).SetVersionedEntry", "NoKV.(*DB).DeleteVersionedEntry")
+	wr := deepMatcher(Named("NoKV.(*DB).SetVersionedEntry", "NoKV.(*DB).DeleteVersionedEntry"), Module+"/percolator", 2)
 	if fn := c.Fn("percolator", "prewriteMutation"); fn != nil {
 		beforeOK(c, r2, fn, "GetLock", Named("percolator.(*Reader).GetLock"), "versioned write", wr, 4)
 		beforeOK(c, r2, fn, "MostRecentWrite", Named("percolator.(*Reader).MostRecentWrite"), "versioned write", wr, 4)
@@ -428,17 +428,32 @@ func C18(c *Ctx) {
 				commitRec = append(commitRec, w)
 			}
 		}
-		for _, w := range Calls(fn, false, Named("NoKV.(*DB).DeleteVersionedEntry")) {
-			if cf, ok := ConstInt(w.Common().Args[1]); ok && cf == cfValue(c, "CFLock") {
-				lockDel = append(lockDel, w)
+		lockDel = effectSites(c, fn, isLockDeleteOf(cfValue(c, "CFLock")), 2)
+		c.Decide(len(commitRec) == 1 && len(lockDel) >= 1, r2, key(fn, "has:commit-record+lock-delete"), fn.Pos(), 2, "commit record and lock removal present", "commitKey no longer writes the commit record and removes the lock")
+		// every lock removal is either behind the successful commit-record write, or on the
+		// already-committed path (the write record found by start ts is non-nil)
+		var wv ssa.Value
+		for _, g := range Calls(fn, false, Named("percolator.(*Reader).GetWriteByStartTs")) {
+			for _, r := range *g.Value().Referrers() {
+				if ex, ok := r.(*ssa.Extract); ok && ex.Index == 0 {
+					wv = ex
+				}
 			}
 		}
-		c.Decide(len(commitRec) == 1 && len(lockDel) >= 1, r2, key(fn, "has:commit-record+lock-delete"), fn.Pos(), 2, "commit record and lock removal present", "commitKey no longer writes the commit record and removes the lock")
 		for i, d := range lockDel {
-			// either after the commit record succeeded, or on the already-committed path (write != nil)
-			if len(commitRec) == 1 && blockReaches(commitRec[0].Block(), d.Block()) {
-				succOK(c, r2, key(fn, fmt.Sprintf("lock-delete[%d]<-ok(commit-record)", i+1)), fn, commitRec, "commit record write", d.(ssa.Instruction), "lock removal")
+			onCommitted := false
+			if wv != nil {
+				for _, e := range NilEdges(fn, map[ssa.Value]bool{wv: true}) {
+					if EdgeDominates(e.NonNil[0], e.NonNil[1], d.Block()) {
+						onCommitted = true
+					}
+				}
 			}
+			if onCommitted {
+				c.Pass(r2, key(fn, fmt.Sprintf("lock-delete[%d]<-ok(commit-record)|already-committed", i+1)), d.Pos(), 2, "lock removal on the already-committed path (a write record for the start ts exists)")
+				continue
+			}
+			succOK(c, r2, key(fn, fmt.Sprintf("lock-delete[%d]<-ok(commit-record)|already-committed", i+1)), fn, commitRec, "commit record write", d.(ssa.Instruction), "lock removal")
 		}
 	}
 
@@ -583,7 +598,7 @@ func C19(c *Ctx) {
 			c.Decide(ok && v.Value != nil && v.Value.ExactString() == "18446744073709551615", r1, key(f, fmt.Sprintf("%s@CFLock[%d]#version", CalleeObj(ci.Common()).Name(), ordinalIn(f, ci))), ci.Pos(), 1, "lock column accessed at lockColumnTs", "lock column accessed at a version other than lockColumnTs")
 		}
 	}
-	c.Floor(r1, n, 5, "lock-column accesses")
+	c.Floor(r1, n, 3, "lock-column accesses")
 
 	const r2 = "K2.expiry-and-min-commit-guards"
 	c.Rule(r2, "CheckTxnStatus rolls back a present lock only on the true edge of isLockExpired(lock, req.CurrentTs) and only when lock.Ts == req.LockTs; isLockExpired is currentTs >= lock.Ts+lock.TTL with TTL==0 never expiring; commitKey refuses commitVersion < lock.MinCommitTs; GetLock treats a tombstone as no lock")
@@ -679,12 +694,9 @@ func C19(c *Ctx) {
 			continue
 		}
 		dels := 0
-		for i, w := range Calls(fn, false, Named("NoKV.(*DB).DeleteVersionedEntry")) {
-			if cf, ok := ConstInt(w.Common().Args[1]); ok && cf == cfLock {
-				dels++
-				ev := ErrResult(w)
-				c.Decide(ev != nil && len(NilEdges(fn, FlowSet(ev))) > 0, r3, key(fn, fmt.Sprintf("lock-delete[%d]#error-checked", i+1)), w.Pos(), 1, "delete error is examined", "the error of the lock delete is ignored")
-			}
+		for i, w := range effectSites(c, fn, isLockDeleteOf(cfLock), 2) {
+			dels++
+			c.Decide(outcomeChecked(fn, w), r3, key(fn, fmt.Sprintf("lock-delete[%d]#error-checked", i+1)), w.Pos(), 1, "delete outcome is examined", "the error of the lock delete is ignored")
 		}
 		want := map[string]int{"rollbackKey": 1, "commitKey": 2}[name]
 		c.Decide(dels >= want, r3, key(fn, "lock-deletes"), fn.Pos(), dels+1, fmt.Sprintf("%d lock delete site(s)", dels), fmt.Sprintf("expected %d lock delete site(s) in %s, found %d: a lock would outlive its transaction", want, name, dels))
@@ -890,4 +902,16 @@ func sameSlice(a, b ssa.Value, depth int) bool {
 		}
 	}
 	return false
+}
+
+// isLockDeleteOf matches DB.DeleteVersionedEntry(cfLock, …).
+func isLockDeleteOf(cfLock int64) func(ssa.CallInstruction) bool {
+	m := Named("NoKV.(*DB).DeleteVersionedEntry")
+	return func(ci ssa.CallInstruction) bool {
+		if !m(ci.Common()) {
+			return false
+		}
+		cf, ok := ConstInt(ci.Common().Args[1])
+		return ok && cf == cfLock
+	}
 }
